@@ -567,6 +567,22 @@ func driveFaults(c *hx.Ctx) error {
 	r := c.Rand("faults")
 
 	var specs []faultSpec
+	if c.Quick() {
+		// every byte offset of the exchange for three (event, position) pairs drawn from the seed
+		for k := 0; k < 3; k++ {
+			ev, pos := allEvents[r.Intn(len(allEvents))], r.Intn(3)
+			tot, err := measureTotals(c, ev, pos)
+			if err != nil {
+				return err
+			}
+			for d := 0; d < 2; d++ {
+				for nb := 0; nb <= tot[d]; nb++ {
+					specs = append(specs, faultSpec{ev: ev, pos: pos, kind: "cut", dir: d, off: nb})
+				}
+			}
+			c.Count("faults.full_offset_sweeps", 1)
+		}
+	}
 	for _, ev := range allEvents {
 		for pos := 0; pos < 3; pos++ {
 			// cuts
